@@ -64,6 +64,9 @@ type Monitors struct {
 	preCrash   []string
 	maxRound   int64
 	crashes    int
+	digests    *RefDigests
+	compared   int
+	uncompared int
 	power      []int64
 	total      int64
 }
@@ -266,7 +269,7 @@ func (m *Monitors) Digest(n *Node) string {
 	var b strings.Builder
 	fmt.Fprintf(&b, "H%d R%d S%d lock(%d,%s) ", rs.Height, rs.Round, rs.Step, rs.LockedRound, m.nt.name(rs.LockedBlock.Hash()))
 	if rs.Proposal != nil {
-		fmt.Fprintf(&b, "prop(r%d,pol%d,%X) ", rs.Proposal.Round, rs.Proposal.POLRound, rs.Proposal.BlockPartsHeader.Hash)
+		fmt.Fprintf(&b, "prop(r%d,pol%d,%s) ", rs.Proposal.Round, rs.Proposal.POLRound, m.nt.pname(rs.Proposal.BlockPartsHeader.Hash))
 	}
 	fmt.Fprintf(&b, "pblock(%s) ", m.nt.name(rs.ProposalBlock.Hash()))
 	if rs.Votes != nil {
@@ -366,8 +369,6 @@ func (m *Monitors) checkStore(n *Node) {
 
 func (m *Monitors) onCrash(n *Node) { m.crashes++ }
 
-func (m *Monitors) onRestart(n *Node) {}
-
 func (m *Monitors) atEnd(res *Result) {
 	nt := m.nt
 	if !res.Done && !res.StepCap {
@@ -418,5 +419,8 @@ func (res *Result) fill(nt *Net) {
 	fmt.Fprintf(&b, "maxround=%d done=%v", res.MaxRound, res.Done)
 	res.Outcome = b.String()
 	res.Trace = nt.Trace
+	if nt.Sc.Mode == "writelog" {
+		res.Extra = map[string]string{"writelog": strings.Join(nt.writeLog, "\n")}
+	}
 	res.StateHashes = nt.stateHashes
 }
